@@ -332,6 +332,7 @@ def run(chk, repo, tier):
         raise AnalysisError('Z6: table selection loops not found in results.py')
     run_more(chk, repo)
     run_z10_z11(chk, repo)
+    run_z12_z14(chk, repo)
 
 
 def run_more(chk, repo):
@@ -459,3 +460,99 @@ def run_z10_z11(chk, repo):
                               witness='a model with three etas: ETC(2,2) and ETC(3,1) are swapped in every individual matrix')
     if n == 0:
         raise AnalysisError('Z11: no triangular unpacking found in table.py')
+
+
+def run_z12_z14(chk, repo):
+    """Z12: the search for the last real estimation step looks at every step including the first; Z13: a log keyed by position
+    is rebuilt in numeric order; Z14: $TABLE without NOAPPEND: PRED RES WRES move to the appended block, an explicit DV stays"""
+    from sa.scans import scan
+    from sa import reach
+    Z12 = chk.rule('Z12', '_get_last_est: the backward scan over the estimation steps reaches step 0', floor=1)
+    rm = repo.module('pharmpy.tools.external.nonmem.results')
+    f = rm.functions.get('_get_last_est')
+    if f is None:
+        raise AnalysisError('_get_last_est not found')
+    its = [L.iter for L in ast.walk(f.node) if isinstance(L, ast.For)] + \
+          [g.iter for c in ast.walk(f.node) if isinstance(c, (ast.GeneratorExp, ast.ListComp)) for g in c.generators]
+    if not its:
+        raise AnalysisError('Z12: scan over the estimation steps not found')
+    for it in its:
+        sc = scan(it)
+        ok = sc is not None and sc.direction == 'desc' and sc.reaches_zero()
+        chk.instance(Z12, f'_get_last_est: scan `{unparse(it)}` '
+                          f'{"(%s, first %s, last %s)" % (sc.direction, sc.first, sc.last) if sc else "(not recognised)"}: '
+                          f'backwards down to step 0: {ok}')
+        if sc is None:
+            raise AnalysisError(f'Z12: scan `{unparse(it)}` not recognised')
+        if not ok:
+            chk.violation(Z12, rm.rel, f.name, unparse(it),
+                          'step 0 is never examined (or the scan runs forwards): when the only real estimation is the first step '
+                          'and evaluation-only steps follow, the status of the evaluation is reported',
+                          line=it.lineno,
+                          witness='FOCE followed by IMP EONLY=1: minimization_successful, function_evaluations and the runtime '
+                                  'are those of the evaluation step')
+    Z13 = chk.rule('Z13', 'Log.from_dict rebuilds the entries in the order of the (positional) keys as numbers: no '
+                          'lexicographic sort of keys that JSON turned into strings', floor=1)
+    lm = repo.module('pharmpy.workflows.log')
+    lg = lm.classes.get('Log')
+    fd = lg.methods.get('from_dict') if lg else None
+    if fd is None:
+        raise AnalysisError('Log.from_dict not found')
+    sorts = [c for c in ast.walk(fd.node) if isinstance(c, ast.Call) and dotted(c.func) == 'sorted']
+    chk.instance(Z13, f'Log.from_dict: {len(sorts)} sorted() call(s)')
+    for c in sorts:
+        keyfn = [k for k in c.keywords if k.arg == 'key']
+        numeric = keyfn and ({'int', 'float'} & names(keyfn[0].value))
+        if not numeric:
+            chk.violation(Z13, lm.rel, fd.qualname, unparse(c),
+                          'position keys become strings in JSON; sorted() orders them 0, 1, 10, 11, 2, ...', line=c.lineno,
+                          witness='read_results(res.to_json()).log for a log with 12 entries comes back permuted')
+    Z14 = chk.rule('Z14', '$TABLE without NOAPPEND: DV PRED RES WRES are appended; PRED RES WRES listed explicitly are moved '
+                          'there, an explicitly listed DV keeps its place', floor=1)
+    pm = repo.module('pharmpy.model.external.nonmem.parsing')
+    pt = pm.functions.get('parse_table_columns')
+    if pt is None:
+        raise AnalysisError('parse_table_columns not found')
+    cfg = CFG(pt.node)
+
+    def literal_list(e, at):
+        x = reach.expand_expr(cfg, at, e) if at is not None else e
+        parts = []
+
+        def flat(y):
+            if isinstance(y, ast.BinOp) and isinstance(y.op, ast.Add):
+                flat(y.left)
+                flat(y.right)
+            else:
+                parts.append(y)
+        flat(x)
+        out = []
+        for p_ in parts:
+            if isinstance(p_, (ast.List, ast.Tuple)) and all(isinstance(z, ast.Constant) for z in p_.elts):
+                out += [z.value for z in p_.elts]
+            else:
+                return None
+        return out
+    found = 0
+    for I in [x for x in ast.walk(pt.node) if isinstance(x, ast.If) and 'noappend' in unparse(x.test)]:
+        removed = appended = None
+        for s_ in ast.walk(I):
+            if isinstance(s_, (ast.ListComp, ast.GeneratorExp)) and s_.generators[0].ifs:
+                t = s_.generators[0].ifs[0]
+                if isinstance(t, ast.Compare) and isinstance(t.ops[0], ast.NotIn):
+                    removed = literal_list(t.comparators[0], reach.node_containing(cfg, s_))
+            if isinstance(s_, ast.Call) and isinstance(s_.func, ast.Attribute) and s_.func.attr == 'extend' and s_.args:
+                appended = literal_list(s_.args[0], reach.node_containing(cfg, s_))
+        if removed is None and appended is None:
+            continue
+        found += 1
+        ok = removed is not None and set(removed) == {'PRED', 'RES', 'WRES'} and appended == ['DV', 'PRED', 'RES', 'WRES']
+        chk.instance(Z14, f'parse_table_columns: removed from the listed items {removed}, appended {appended}: as NONMEM does {ok}')
+        if not ok:
+            chk.violation(Z14, pm.rel, pt.name, f'removed {removed}, appended {appended}',
+                          'NONMEM appends DV PRED RES WRES; explicitly listed PRED/RES/WRES are printed only there, an explicitly '
+                          'listed DV is printed in place as well', line=I.lineno,
+                          witness='$TABLE ID TIME DV IPRED CWRES (no NOAPPEND): every column after DV is read one position too '
+                                  'early')
+    if found == 0:
+        raise AnalysisError('Z14: handling of the appended columns not found in parse_table_columns')
